@@ -225,10 +225,58 @@ func c09FlatKeysScenario(x *mc.X) *mc.Outcome {
 	return out
 }
 
+// Large inputs: two (three) sibling lists of n failing items each — hundreds of issues in one execution — under every
+// order of visiting the lists.
+type c09Big struct {
+	Names []string
+	Ages  []int
+	Tags  []string
+}
+
+func c09LargeListsScenario(x *mc.X) *mc.Outcome {
+	mode := x.Choose(2, "mode")
+	n := []int{1, 100, 127, 128, 129, 200, 255, 256, 257, 300, 1000}[x.Choose(11, "itemsPerList")]
+	names, ages, tags := make([]any, n), make([]any, n), make([]any, n)
+	var d0 c09Big
+	for i := 0; i < n; i++ {
+		names[i], ages[i], tags[i] = "x", 1, "ok"
+		d0.Names, d0.Ages, d0.Tags = append(d0.Names, "x"), append(d0.Ages, 1), append(d0.Tags, "ok")
+	}
+	run := func(om zh.OrderMode) (*Obs, string) {
+		zh.Reset()
+		zh.Install(x, zh.PoolLIFO, om)
+		s := z.Struct(z.Schema{"names": z.Slice(z.String().Min(3)), "ages": z.Slice(z.Int().GT(5)), "tags": z.Slice(z.String().Min(2))})
+		d := c09Big{}
+		var o *Obs
+		if mode == 0 {
+			o = RunParse(s, map[string]any{"names": names, "ages": ages, "tags": tags}, reflect.ValueOf(&d))
+		} else {
+			d = c09Big{Names: append([]string(nil), d0.Names...), Ages: append([]int(nil), d0.Ages...), Tags: append([]string(nil), d0.Tags...)}
+			o = RunValidate(s, reflect.ValueOf(&d))
+		}
+		zh.Reset()
+		return o, fmt.Sprintf("%d/%d/%d", len(d.Names), len(d.Ages), len(d.Tags))
+	}
+	bo, bd := run(zh.OrderSorted)
+	po, pd := run(zh.OrderFree)
+	out := &mc.Outcome{Traces: 2, Nontrivial: true, Sig: fmt.Sprintf("large|%d|%d|%d", mode, n, len(bo.Issues))}
+	out.Sample = map[string]any{"mode": mode, "items_per_list": n, "issues": len(bo.Issues)}
+	if len(bo.Issues) != 2*n {
+		x.Note("mode %d, %d failing items in each of two lists (a third list is valid)", mode, n)
+		out.Viol = append(out.Viol, &mc.Violation{Key: "C09:large-lists:count", What: "not every failing item of a large list is reported", Expected: fmt.Sprint(2 * n), Observed: fmt.Sprint(len(bo.Issues))})
+		return out
+	}
+	if bo.Panic != po.Panic || !eqStrings(bo.IssueStrings(), po.IssueStrings()) || bd != pd {
+		x.Note("mode %d, %d failing items in each of two lists", mode, n)
+		out.Viol = append(out.Viol, &mc.Violation{Key: "C09:large-lists:order", What: "with hundreds of issues in one execution the result depends on the order in which the lists are visited", Expected: fmt.Sprintf("%d issues", len(bo.Issues)), Observed: fmt.Sprintf("%d issues", len(po.Issues))})
+	}
+	return out
+}
+
 func init() {
 	Register(&Prop{
 		ID:    "C09",
-		Rule:  "one execution = one core case (skeletons with a ≥2-field struct, ≤k focus units over full alphabets, both modes) run twice on the real code: canonical sorted visit order vs. the permutation chosen at every struct visit (all permutations enumerated, jointly across nesting levels and slice elements); plus the two-field shape grammar again under an installed formatter whose text names the issue's own path and code (messages are then part of the comparison); plus input documents holding any subset of keys that differ only in letter case / blanks (top level and nested) through Go map, zjson and zhttp JSON, and query / form requests holding any subset of the spellings of one list parameter (plain, [] suffix, one parameter per index) and of one scalar parameter in three letter cases, sorted order vs every permutation at every hooked range-over-map site; non-trivial = non-identity permutation on a deviating case; distinct = distinct (skeleton, mode, issue multiset, permutation vector)",
+		Rule:  "one execution = one core case (skeletons with a ≥2-field struct, ≤k focus units over full alphabets, both modes) run twice on the real code: canonical sorted visit order vs. the permutation chosen at every struct visit (all permutations enumerated, jointly across nesting levels and slice elements); plus the two-field shape grammar again under an installed formatter whose text names the issue's own path and code (messages are then part of the comparison); plus sibling lists of 1..1000 failing items each (hundreds of issues in one execution) under every order of visiting them; plus input documents holding any subset of keys that differ only in letter case / blanks (top level and nested) through Go map, zjson and zhttp JSON, and query / form requests holding any subset of the spellings of one list parameter (plain, [] suffix, one parameter per index) and of one scalar parameter in three letter cases, sorted order vs every permutation at every hooked range-over-map site; non-trivial = non-identity permutation on a deviating case; distinct = distinct (skeleton, mode, issue multiset, permutation vector)",
 		Floor: 50,
 		Bound: func(tier string) string {
 			k, e := coreK(tier)
@@ -245,6 +293,7 @@ func init() {
 			}
 			items = append(items, Item{Name: "input-keys", MaxDevs: -1, Run: c09InputKeysScenario})
 			items = append(items, Item{Name: "input-keys-flat", MaxDevs: -1, Run: c09FlatKeysScenario})
+			items = append(items, Item{Name: "large-sibling-lists", MaxDevs: -1, Run: c09LargeListsScenario})
 			// every message is the formatter's answer for its own issue, whatever was formatted just before it:
 			// the shape grammar and the small catalogue skeletons again, under a formatter that names path and code
 			for _, it := range coreItemsFiltered(tier, c09Scenario, func(a *Alpha) { a.Lite = true }, []int{0, 1}, 2, func(ns NamedSkel) bool {
